@@ -260,8 +260,8 @@ theorem safe_of_cases {α β : Type} {r : R α} (hr : r.safe) (f : α → R β) 
   | oob => exact hr.elim
   | spin => exact hr.elim
 
-/-- safe, and a successful result keeps `stale = false` (the repaired code never leaves `sparse_last` dangling) -/
-def OKst (r : R PaxOut) : Prop := r.safe ∧ ∀ o', r = .ok o' → o'.stale = false
+/-- (kept as a name: the handlers' results are safe) -/
+def OKst (r : R PaxOut) : Prop := r.safe
 
 theorem okst_ite {c : Prop} [Decidable c] {a b : R PaxOut} (ha : c → OKst a) (hb : ¬ c → OKst b) :
     OKst (if c then a else b) := by
@@ -269,14 +269,14 @@ theorem okst_ite {c : Prop} [Decidable c] {a b : R PaxOut} (ha : c → OKst a) (
   · simp only [h, if_true]; exact ha h
   · simp only [h, if_false]; exact hb h
 
-theorem okst_fail (c : Nat) : OKst (.fail c) := ⟨trivial, fun o' h => by cases h⟩
+theorem okst_fail (c : Nat) : OKst (.fail c) := trivial
 
-theorem okst_ok {o : PaxOut} (h : o.stale = false) : OKst (.ok o) := ⟨trivial, fun o' e => by cases e; exact h⟩
+theorem okst_ok {o : PaxOut} : OKst (.ok o) := trivial
 
 theorem paxApply_safe (buf : Bytes) (r : PaxRec) (o : PaxOut) (k : Nat)
     (hkey : buf[r.value - 1]? = some 0) (hkl : r.key ≤ r.value - 1) (hvp : 1 ≤ r.value)
-    (hk : buf[k]? = some 0) (hvl : r.value ≤ k) (hlen : r.value + r.valueLen = k) (hst : o.stale = false) :
-    OKst (paxApply true buf r o) := by
+    (hk : buf[k]? = some 0) (hvl : r.value ≤ k) (hlen : r.value + r.valueLen = k) :
+    OKst (paxApply buf r o) := by
   have hklt := getElem?_lt hk
   have hkeylt := getElem?_lt hkey
   unfold paxApply
@@ -287,7 +287,7 @@ theorem paxApply_safe (buf : Bytes) (r : PaxRec) (o : PaxOut) (k : Nat)
   obtain ⟨sv, hsv⟩ := cstr_safe buf k hk (buf.length + 1) r.value hvl (by omega)
   have hB := base64Decode_safe buf r.value r.valueLen r.valueLen (by omega)
   have hM := sparseMapLoop_safe buf k hk (buf.length + 1) r.value [] hvl (by omega)
-  simp only [hsv, hst, Bool.false_eq_true, if_false, if_true]
+  simp only [hsv]
   cases hpu : parseU 10 buf r.value none true 0 0 with
   | oob => rw [hpu] at hU; exact (hU : False).elim
   | spin => rw [hpu] at hU; exact (hU : False).elim
@@ -303,14 +303,14 @@ theorem paxApply_safe (buf : Bytes) (r : PaxRec) (o : PaxOut) (k : Nat)
         cases hpm : sparseMapLoop buf (buf.length + 1) r.value [] with
         | oob => rw [hpm] at hM; exact (hM : False).elim
         | spin => rw [hpm] at hM; exact (hM : False).elim
-        | fail cm => repeat' (first | exact okst_ok rfl | exact okst_ok hst | exact okst_fail _ | exact okst_ok (by split <;> rfl) | refine okst_ite (fun _ => ?_) (fun _ => ?_))
-        | ok l => repeat' (first | exact okst_ok rfl | exact okst_ok hst | exact okst_fail _ | exact okst_ok (by split <;> rfl) | refine okst_ite (fun _ => ?_) (fun _ => ?_))
+        | fail cm => repeat' (first | exact okst_ok | exact okst_fail _ | refine okst_ite (fun _ => ?_) (fun _ => ?_))
+        | ok l => repeat' (first | exact okst_ok | exact okst_fail _ | refine okst_ite (fun _ => ?_) (fun _ => ?_))
       | ok vb =>
         cases hpm : sparseMapLoop buf (buf.length + 1) r.value [] with
         | oob => rw [hpm] at hM; exact (hM : False).elim
         | spin => rw [hpm] at hM; exact (hM : False).elim
-        | fail cm => repeat' (first | exact okst_ok rfl | exact okst_ok hst | exact okst_fail _ | exact okst_ok (by split <;> rfl) | refine okst_ite (fun _ => ?_) (fun _ => ?_))
-        | ok l => repeat' (first | exact okst_ok rfl | exact okst_ok hst | exact okst_fail _ | exact okst_ok (by split <;> rfl) | refine okst_ite (fun _ => ?_) (fun _ => ?_))
+        | fail cm => repeat' (first | exact okst_ok | exact okst_fail _ | refine okst_ite (fun _ => ?_) (fun _ => ?_))
+        | ok l => repeat' (first | exact okst_ok | exact okst_fail _ | refine okst_ite (fun _ => ?_) (fun _ => ?_))
     | ok xi =>
       obtain ⟨vi, di⟩ := xi
       cases hpb : base64Decode buf r.value r.valueLen r.valueLen with
@@ -320,14 +320,14 @@ theorem paxApply_safe (buf : Bytes) (r : PaxRec) (o : PaxOut) (k : Nat)
         cases hpm : sparseMapLoop buf (buf.length + 1) r.value [] with
         | oob => rw [hpm] at hM; exact (hM : False).elim
         | spin => rw [hpm] at hM; exact (hM : False).elim
-        | fail cm => repeat' (first | exact okst_ok rfl | exact okst_ok hst | exact okst_fail _ | exact okst_ok (by split <;> rfl) | refine okst_ite (fun _ => ?_) (fun _ => ?_))
-        | ok l => repeat' (first | exact okst_ok rfl | exact okst_ok hst | exact okst_fail _ | exact okst_ok (by split <;> rfl) | refine okst_ite (fun _ => ?_) (fun _ => ?_))
+        | fail cm => repeat' (first | exact okst_ok | exact okst_fail _ | refine okst_ite (fun _ => ?_) (fun _ => ?_))
+        | ok l => repeat' (first | exact okst_ok | exact okst_fail _ | refine okst_ite (fun _ => ?_) (fun _ => ?_))
       | ok vb =>
         cases hpm : sparseMapLoop buf (buf.length + 1) r.value [] with
         | oob => rw [hpm] at hM; exact (hM : False).elim
         | spin => rw [hpm] at hM; exact (hM : False).elim
-        | fail cm => repeat' (first | exact okst_ok rfl | exact okst_ok hst | exact okst_fail _ | exact okst_ok (by split <;> rfl) | refine okst_ite (fun _ => ?_) (fun _ => ?_))
-        | ok l => repeat' (first | exact okst_ok rfl | exact okst_ok hst | exact okst_fail _ | exact okst_ok (by split <;> rfl) | refine okst_ite (fun _ => ?_) (fun _ => ?_))
+        | fail cm => repeat' (first | exact okst_ok | exact okst_fail _ | refine okst_ite (fun _ => ?_) (fun _ => ?_))
+        | ok l => repeat' (first | exact okst_ok | exact okst_fail _ | refine okst_ite (fun _ => ?_) (fun _ => ?_))
   | ok xu =>
     obtain ⟨vu, du⟩ := xu
     cases hpi : parseI buf r.value none true with
@@ -341,14 +341,14 @@ theorem paxApply_safe (buf : Bytes) (r : PaxRec) (o : PaxOut) (k : Nat)
         cases hpm : sparseMapLoop buf (buf.length + 1) r.value [] with
         | oob => rw [hpm] at hM; exact (hM : False).elim
         | spin => rw [hpm] at hM; exact (hM : False).elim
-        | fail cm => repeat' (first | exact okst_ok rfl | exact okst_ok hst | exact okst_fail _ | exact okst_ok (by split <;> rfl) | refine okst_ite (fun _ => ?_) (fun _ => ?_))
-        | ok l => repeat' (first | exact okst_ok rfl | exact okst_ok hst | exact okst_fail _ | exact okst_ok (by split <;> rfl) | refine okst_ite (fun _ => ?_) (fun _ => ?_))
+        | fail cm => repeat' (first | exact okst_ok | exact okst_fail _ | refine okst_ite (fun _ => ?_) (fun _ => ?_))
+        | ok l => repeat' (first | exact okst_ok | exact okst_fail _ | refine okst_ite (fun _ => ?_) (fun _ => ?_))
       | ok vb =>
         cases hpm : sparseMapLoop buf (buf.length + 1) r.value [] with
         | oob => rw [hpm] at hM; exact (hM : False).elim
         | spin => rw [hpm] at hM; exact (hM : False).elim
-        | fail cm => repeat' (first | exact okst_ok rfl | exact okst_ok hst | exact okst_fail _ | exact okst_ok (by split <;> rfl) | refine okst_ite (fun _ => ?_) (fun _ => ?_))
-        | ok l => repeat' (first | exact okst_ok rfl | exact okst_ok hst | exact okst_fail _ | exact okst_ok (by split <;> rfl) | refine okst_ite (fun _ => ?_) (fun _ => ?_))
+        | fail cm => repeat' (first | exact okst_ok | exact okst_fail _ | refine okst_ite (fun _ => ?_) (fun _ => ?_))
+        | ok l => repeat' (first | exact okst_ok | exact okst_fail _ | refine okst_ite (fun _ => ?_) (fun _ => ?_))
     | ok xi =>
       obtain ⟨vi, di⟩ := xi
       cases hpb : base64Decode buf r.value r.valueLen r.valueLen with
@@ -358,22 +358,22 @@ theorem paxApply_safe (buf : Bytes) (r : PaxRec) (o : PaxOut) (k : Nat)
         cases hpm : sparseMapLoop buf (buf.length + 1) r.value [] with
         | oob => rw [hpm] at hM; exact (hM : False).elim
         | spin => rw [hpm] at hM; exact (hM : False).elim
-        | fail cm => repeat' (first | exact okst_ok rfl | exact okst_ok hst | exact okst_fail _ | exact okst_ok (by split <;> rfl) | refine okst_ite (fun _ => ?_) (fun _ => ?_))
-        | ok l => repeat' (first | exact okst_ok rfl | exact okst_ok hst | exact okst_fail _ | exact okst_ok (by split <;> rfl) | refine okst_ite (fun _ => ?_) (fun _ => ?_))
+        | fail cm => repeat' (first | exact okst_ok | exact okst_fail _ | refine okst_ite (fun _ => ?_) (fun _ => ?_))
+        | ok l => repeat' (first | exact okst_ok | exact okst_fail _ | refine okst_ite (fun _ => ?_) (fun _ => ?_))
       | ok vb =>
         cases hpm : sparseMapLoop buf (buf.length + 1) r.value [] with
         | oob => rw [hpm] at hM; exact (hM : False).elim
         | spin => rw [hpm] at hM; exact (hM : False).elim
-        | fail cm => repeat' (first | exact okst_ok rfl | exact okst_ok hst | exact okst_fail _ | exact okst_ok (by split <;> rfl) | refine okst_ite (fun _ => ?_) (fun _ => ?_))
-        | ok l => repeat' (first | exact okst_ok rfl | exact okst_ok hst | exact okst_fail _ | exact okst_ok (by split <;> rfl) | refine okst_ite (fun _ => ?_) (fun _ => ?_))
+        | fail cm => repeat' (first | exact okst_ok | exact okst_fail _ | refine okst_ite (fun _ => ?_) (fun _ => ?_))
+        | ok l => repeat' (first | exact okst_ok | exact okst_fail _ | refine okst_ite (fun _ => ?_) (fun _ => ?_))
 
 theorem paxLoop_safe (endIdx : Nat) : ∀ fuel buf line (o : PaxOut), buf.length = endIdx + 1 → buf[endIdx]? = some 0 →
-    line ≤ endIdx → endIdx - line + 1 ≤ fuel → o.stale = false → (paxLoop true endIdx fuel buf line o).safe := by
+    line ≤ endIdx → endIdx - line + 1 ≤ fuel → (paxLoop endIdx fuel buf line o).safe := by
   intro fuel
   induction fuel with
   | zero => intro buf line o _ _ _ h; omega
   | succ f ih =>
-    intro buf line o hlen hnul hle hf hst
+    intro buf line o hlen hnul hle hf
     simp only [paxLoop]
     refine safe_ite (fun _ => by trivial) (fun hlt => ?_)
     have hspec := paxFrame_spec buf endIdx line hlen hnul (by omega)
@@ -384,25 +384,24 @@ theorem paxLoop_safe (endIdx : Nat) : ∀ fuel buf line (o : PaxOut), buf.length
     | frame buf' r next =>
       rw [hfr] at hspec
       have hok : FrameOK endIdx line buf' r next := hspec
-      obtain ⟨a1, a2⟩ := paxApply_safe buf' r o (next - 1) hok.keyEnd hok.keyLe hok.valPos hok.valEnd hok.valLe hok.valLen hst
+      have a1 := paxApply_safe buf' r o (next - 1) hok.keyEnd hok.keyLe hok.valPos hok.valEnd hok.valLe hok.valLen
       simp only []
-      cases hap : paxApply true buf' r o with
+      cases hap : paxApply buf' r o with
       | oob => rw [hap] at a1; exact (a1 : False).elim
       | spin => rw [hap] at a1; exact (a1 : False).elim
       | fail c => trivial
       | ok o' =>
         have := hok.adv
         have := hok.le
-        exact ih buf' next o' hok.len hok.nul hok.le (by omega) (a2 o' hap)
+        exact ih buf' next o' hok.len hok.nul hok.le (by omega)
 
-/-- `read_pax_header` (repaired) on **any** record: inside the `entsize + 1` byte buffer, and it returns -/
-theorem readPaxHeader_safe (record : Bytes) : (readPaxHeader true record).safe := by
+/-- `read_pax_header` on **any** record: inside the `entsize + 1` byte buffer, and it returns -/
+theorem readPaxHeader_safe (record : Bytes) : (readPaxHeader record).safe := by
   unfold readPaxHeader
   apply paxLoop_safe record.length (record.length + 1) (record ++ [0]) 0 {}
   · simp
   · simp
   · omega
   · omega
-  · rfl
 
 end Sqfs.ParseTotal
